@@ -424,7 +424,7 @@ theorem messages_create_nothing (cfg : DispCfg) (mr : Nat) (h : Int) (s : DispSt
     simp only [deliver]
     by_cases hv : m.validateBasic cfg = true
     · simp only [hv, Bool.not_true, Bool.false_eq_true, if_false]
-      cases hc : createClaim s m with
+      cases hc : createClaim cfg s m with
       | none => rfl
       | some s' => obtain ⟨_, rfl⟩ := createClaim_spec hc; rfl
     · simp [hv]
